@@ -140,6 +140,10 @@ def make_binders_unique(a: ast.AST) -> ast.AST:
 
         def visit_Lambda(self, node: ast.Lambda):
             names = [arg.arg for arg in _lambda_binders(node.args)]
+            # Default values are evaluated outside the lambda
+            for d in list(node.args.defaults) + list(node.args.kw_defaults):
+                if d is not None:
+                    self.visit(d)
             self._bound.extend(names)
             self.visit(node.body)
             del self._bound[len(self._bound) - len(names) :]
